@@ -273,5 +273,230 @@ theorem extractFirst_denotes {l : LList} {items : List Nat} (h : Denotes l items
         intro x _
         exact (itemAt_set_live hcu false x).symm
 
+theorem denotes_len {l : LList} {items : List Nat} (h : Denotes l items) : l.len = items.length := by
+  obtain ⟨ptrs, hch, hit⟩ := h
+  rw [hit, hch.2.2.1]; simp
+
+theorem insert_denotes {l : LList} {items : List Nat} (h : Denotes l items) (item pos : Nat) :
+    ∃ l' r, l.insert item pos = .ok (l', r) ∧ Denotes l' (lstep items (.insert item pos)).1 ∧
+      LOut.bool r = (lstep items (.insert item pos)).2 := by
+  have hlen_items := denotes_len h
+  obtain ⟨ptrs, hch, hit⟩ := h
+  by_cases h0 : item = 0
+  · subst h0
+    exact ⟨l, false, by simp [LList.insert], ⟨ptrs, hch, by simpa [lstep] using hit⟩, by simp [lstep]⟩
+  simp only [lstep, h0, if_false]
+  obtain ⟨hseg, hnd, hlen, htail⟩ := hch
+  have hlt' := seg_lt hseg
+  let a := l.heap.length
+  let new : Cell := ⟨item, none, true⟩
+  have hnotin : a ∉ ptrs := fun hm => by have := hlt' a hm; omega
+  have hnewcell : (l.heap ++ [new])[a]? = some new := by simp [a]
+  unfold LList.insert
+  simp only [h0, if_false, newCell]
+  by_cases hl0 : l.len = 0
+  · -- empty list
+    have hp : ptrs = [] := by
+      cases ptrs with
+      | nil => rfl
+      | cons _ _ => simp at hlen; omega
+    subst hp; subst hit
+    simp only [hl0, if_true]
+    refine ⟨_, true, rfl, ⟨[a], ⟨?_, by simp, by simp [hl0], rfl⟩, ?_⟩, rfl⟩
+    · exact ⟨rfl, new, hnewcell, rfl, rfl⟩
+    · have : itemAt (l.heap ++ [new]) a = item := by unfold itemAt; rw [hnewcell]
+      simp only [List.map_nil, List.take_nil, List.drop_nil, List.nil_append, List.map_cons]
+      exact congrArg (fun x => [x]) this.symm
+  · simp only [hl0, if_false]
+    by_cases hp0 : pos = 0
+    · -- new head
+      subst hp0
+      simp only [if_true]
+      have hsn := setNext_ok (l := { l with heap := l.heap ++ [new] }) hnewcell rfl l.head
+      simp only [new] at hsn
+      rw [hsn]
+      refine ⟨_, true, rfl, ⟨a :: ptrs, ⟨?_, ?_, ?_, ?_⟩, ?_⟩, rfl⟩
+      · refine ⟨rfl, { new with next := l.head }, ?_, rfl, ?_⟩
+        · exact List.getElem?_set_self (by simp [a])
+        · exact seg_frame_set (seg_frame_append hseg new) a _ hnotin
+      · exact List.nodup_cons.mpr ⟨hnotin, hnd⟩
+      · simp [hlen]
+      · cases ptrs with
+        | nil => simp at hlen; omega
+        | cons x xs => simp [htail, List.getLast?_cons_cons]
+      · rw [hit]
+        simp only [List.take_zero, List.nil_append, List.drop_zero, List.map_cons]
+        congr 1
+        · simp [itemAt, a, new]
+        · apply List.map_congr_left
+          intro x hx
+          rw [itemAt_set_next hnewcell, itemAt_append new (hlt' x hx)]
+    · simp only [hp0, if_false]
+      by_cases hpl : pos ≥ l.len
+      · -- at the tail
+        simp only [hpl, if_true]
+        obtain ⟨init, t, hpt⟩ : ∃ init t, ptrs = init ++ [t] := by
+          rcases List.eq_nil_or_concat ptrs with e | ⟨i, t, e⟩
+          · rw [e] at hlen; simp at hlen; omega
+          · exact ⟨i, t, by rw [e, List.concat_eq_append]⟩
+        subst hpt
+        obtain ⟨l2, hl2, hc2, hm2⟩ := link_at_tail item (l := l) ⟨hseg, hnd, hlen, htail⟩
+        simp only [newCell] at hl2
+        rw [hl2]
+        refine ⟨_, true, rfl, ⟨_, hc2, ?_⟩, rfl⟩
+        rw [hm2, ← hit]
+        have h1 : items.take pos = items := List.take_of_length_le (by omega)
+        have h2 : items.drop pos = [] := List.drop_eq_nil_of_le (by omega)
+        rw [h1, h2]
+      · -- in the middle: ptrs = (pre ++ [u]) ++ v :: post with |pre ++ [u]| = pos
+        simp only [hpl, if_false]
+        have hposlt : pos < ptrs.length := by omega
+        obtain ⟨pre, u, hpu⟩ : ∃ pre u, ptrs.take pos = pre ++ [u] := by
+          rcases List.eq_nil_or_concat (ptrs.take pos) with e | ⟨i, t, e⟩
+          · have h2 : (ptrs.take pos).length = pos := by rw [List.length_take]; omega
+            rw [e] at h2; simp at h2; omega
+          · exact ⟨i, t, by rw [e, List.concat_eq_append]⟩
+        have hsplit : ptrs = (pre ++ [u]) ++ ptrs[pos] :: ptrs.drop (pos + 1) := by
+          conv => lhs; rw [← List.take_append_drop pos ptrs, List.drop_eq_getElem_cons hposlt, hpu]
+        generalize ptrs[pos] = v at hsplit
+        generalize ptrs.drop (pos + 1) = post at hsplit
+        have hprelen : (pre ++ [u]).length = pos := by rw [← hpu]; simp; omega
+        subst hsplit
+        obtain ⟨m, hs1, hs2⟩ := seg_append.mp hseg
+        obtain ⟨m0, hs0, hsu⟩ := seg_append.mp hs1
+        obtain ⟨hm0, cu, hcu, hlu, hum⟩ := hsu
+        have hum : cu.next = m := hum
+        have hmv : m = some v := hs2.1
+        -- cells
+        have hul : u < l.heap.length := hlt' u (by simp)
+        have hcu1 : (l.heap ++ [new])[u]? = some cu := by rw [List.getElem?_append_left hul]; exact hcu
+        have hua : u ≠ a := by omega
+        have hnd1 := List.nodup_append.mp hnd
+        have hnd2 := List.nodup_append.mp hnd1.1
+        have hu_pre : u ∉ pre := fun hm => hnd2.2.2 u hm u (by simp) rfl
+        have hu_post : u ∉ v :: post := fun hm => hnd1.2.2 u (by simp) u hm rfl
+        -- the walk
+        have hadv := advance_seg (l := { l with heap := l.heap ++ [new] }) (seg_frame_append hs1 new) none
+        rw [hprelen] at hadv
+        simp only [List.append_eq_nil_iff, List.cons_ne_self, and_false, if_false, List.getLast?_append,
+          List.getLast?_singleton, Option.or_some, Option.some_or, reduceCtorEq, new] at hadv
+        rw [hadv]
+        simp only
+        have hsn1 := setNext_ok (l := { l with heap := l.heap ++ [new] }) hcu1 hlu (some a)
+        simp only [new, a] at hsn1
+        rw [hsn1]
+        simp only
+        have hnew2 : ((l.heap ++ [new]).set u { cu with next := some a })[a]? = some new := by
+          rw [List.getElem?_set_ne hua]; exact hnewcell
+        have hsn2 := setNext_ok (l := { l with heap := (l.heap ++ [new]).set u { cu with next := some a } })
+          hnew2 rfl m
+        simp only [new, a] at hsn2
+        rw [hsn2]
+        refine ⟨_, true, rfl, ⟨pre ++ [u] ++ [a] ++ v :: post, ⟨?_, ?_, ?_, ?_⟩, ?_⟩, rfl⟩
+        · -- the chain
+          have ha_pre : a ∉ pre := fun hm => hnotin (by simp [hm])
+          have ha_post : a ∉ v :: post := fun hm => hnotin (by
+            rcases List.mem_cons.mp hm with e | e
+            · simp [e]
+            · simp [e])
+          rw [List.append_assoc (pre ++ [u]), List.append_assoc pre]
+          refine seg_append.mpr ⟨m0, ?_, ?_⟩
+          · exact seg_frame_set (seg_frame_set (seg_frame_append hs0 new) u _ hu_pre) a _ ha_pre
+          · refine ⟨hm0, { cu with next := some a }, ?_, hlu, ?_⟩
+            · rw [List.getElem?_set_ne (fun e => hua e.symm), List.getElem?_set_self (by simp; omega)]
+            · refine ⟨rfl, { new with next := m }, ?_, rfl, ?_⟩
+              · exact List.getElem?_set_self (by simp [a])
+              · exact seg_frame_set (seg_frame_set (seg_frame_append hs2 new) u _ hu_post) a _ ha_post
+        · -- no duplicates
+          have : pre ++ [u] ++ [a] ++ v :: post = (pre ++ [u]) ++ (a :: (v :: post)) := by simp
+          rw [this, List.nodup_append]
+          refine ⟨hnd1.1, List.nodup_cons.mpr ⟨fun hm => hnotin (by
+              rcases List.mem_cons.mp hm with e | e
+              · simp [e]
+              · simp [e]), hnd1.2.1⟩, ?_⟩
+          intro x hx y hy
+          rcases List.mem_cons.mp hy with e | e
+          · intro exy; subst exy; subst e; exact hnotin (by simp at hx ⊢; rcases hx with hx | hx <;> simp [hx])
+          · exact hnd1.2.2 x hx y e
+        · simp at hlen ⊢; omega
+        · simp [htail, List.getLast?_append]
+        · -- items
+          rw [hit]
+          have hf : ∀ x, x ∈ (pre ++ [u]) ++ v :: post →
+              itemAt (((l.heap ++ [new]).set u { cu with next := some a }).set a { new with next := m }) x
+                = itemAt l.heap x := by
+            intro x hx
+            rw [itemAt_set_next hnew2, itemAt_set_next hcu1, itemAt_append new (hlt' x hx)]
+          have hfa : itemAt (((l.heap ++ [new]).set u { cu with next := some a }).set a { new with next := m }) a
+              = item := by
+            unfold itemAt
+            rw [List.getElem?_set_self (by simp [a])]
+          rw [List.map_append, List.take_left' (by simp; simp at hprelen; omega),
+            List.drop_left' (by simp; simp at hprelen; omega)]
+          simp only [List.map_append, List.map_cons, List.map_nil, List.append_assoc, List.singleton_append,
+            List.cons_append, List.nil_append]
+          rw [hfa]
+          congr 1
+          · exact (List.map_congr_left (fun x hx => hf x (by simp [hx]))).symm
+          · congr 1
+            · exact (hf u (by simp)).symm
+            · congr 1
+              congr 1
+              · exact (hf v (by simp)).symm
+              · exact (List.map_congr_left (fun x hx => hf x (by simp [hx]))).symm
+
+/-- `wbxml_list_destroy` walks the whole chain, frees every cell once and touches no freed cell. -/
+theorem destroyLoop_ok (xs : List Nat) : ∀ (l : LList) (p : Option Nat) (fuel : Nat),
+    Seg l.heap p xs none → xs.Nodup → xs.length < fuel → ∃ l', l.destroyLoop fuel p = .ok l' := by
+  induction xs with
+  | nil =>
+    intro l p fuel hs _ hf
+    have : p = none := hs
+    subst this
+    cases fuel with
+    | zero => omega
+    | succ f => exact ⟨l, rfl⟩
+  | cons x rest ih =>
+    intro l p fuel hs hnd hf
+    obtain ⟨hp, c, hc, hl, hr⟩ := hs
+    subst hp
+    cases fuel with
+    | zero => omega
+    | succ f =>
+      have hnd' := List.nodup_cons.mp hnd
+      simp only [destroyLoop, deref_ok hc hl, free_ok hc hl]
+      exact ih _ c.next f (seg_frame_set hr x _ hnd'.1) hnd'.2 (by simp at hf; omega)
+
+theorem destroy_ok {l : LList} {items : List Nat} (h : Denotes l items) : ∃ l', l.destroy = .ok l' := by
+  obtain ⟨ptrs, ⟨hseg, hnd, hlen, _⟩, _⟩ := h
+  exact destroyLoop_ok ptrs l l.head (l.len + 1) hseg hnd (by omega)
+
+/-- One list operation refines one step of the plain sequence. -/
+theorem step_refines {l : LList} {items : List Nat} (h : Denotes l items) (op : LOp) :
+    ∃ l' o, l.step op = .ok (l', o) ∧ Denotes l' (lstep items op).1 ∧ o = (lstep items op).2 := by
+  cases op with
+  | len => exact ⟨l, .nat l.len, rfl, h, by simp [lstep, denotes_len h]⟩
+  | append item =>
+    obtain ⟨l', r, hl, hd, hr⟩ := append_denotes h item
+    exact ⟨l', .bool r, by simp [step, hl], hd, hr⟩
+  | insert item pos =>
+    obtain ⟨l', r, hl, hd, hr⟩ := insert_denotes h item pos
+    exact ⟨l', .bool r, by simp [step, hl], hd, hr⟩
+  | get idx => exact ⟨l, .item items[idx]?, by simp [step, get_denotes h idx], h, rfl⟩
+  | extractFirst =>
+    obtain ⟨l', hl, hd⟩ := extractFirst_denotes h
+    exact ⟨l', .item items.head?, by simp [step, hl], hd, rfl⟩
+
+/-- All finite histories on a list. -/
+theorem run_refines (ops : List LOp) : ∀ (l : LList) (items : List Nat), Denotes l items →
+    ∃ l' outs, l.run ops = .ok (l', outs) ∧ Denotes l' (lrun items ops).1 ∧ outs = (lrun items ops).2 := by
+  induction ops with
+  | nil => intro l items h; exact ⟨l, [], rfl, h, rfl⟩
+  | cons op ops ih =>
+    intro l items h
+    obtain ⟨l1, o, hl1, hd1, ho1⟩ := step_refines h op
+    obtain ⟨l2, outs, hl2, hd2, ho2⟩ := ih l1 _ hd1
+    exact ⟨l2, o :: outs, by simp [run, hl1, hl2], by simpa [lrun] using hd2, by simp [lrun, ho1, ho2]⟩
+
 end LList
 end Wbxml.Model
